@@ -4,6 +4,7 @@ import (
 	"fmt"
 	"io"
 	"net"
+	"os"
 	"strconv"
 	"strings"
 	"time"
@@ -57,6 +58,11 @@ const (
 var progNames = [...]string{"P(mounts)", "P(mounts, populated after mounting)", "P'(groups)", "P''(full paths)", "P'''(Route chains)"}
 
 const maxLeaves = 12
+
+// emptyAsRoot is a diagnostic switch, never set by ./check: P' spells a sub-app's own empty
+// pattern as "/" (what the sub-app itself normalises it to). Used once to see whether the
+// empty-pattern finding hides anything else.
+var emptyAsRoot = os.Getenv("C04_EMPTY_AS_ROOT") == "1"
 
 type fakeConn struct{}
 
@@ -164,27 +170,33 @@ func (e *exec) build(t *tree, c rcfg, prog int, plan map[int]int) (h fasthttp.Re
 	id := 0
 	switch prog {
 	case progMount, progMountLate, progGroup:
-		var reg func(r fiber.Router, items []*node)
-		reg = func(r fiber.Router, items []*node) {
+		var reg func(r fiber.Router, items []*node, subRoot bool)
+		reg = func(r fiber.Router, items []*node, subRoot bool) {
 			for _, n := range items {
 				switch {
 				case n.T == 'r':
-					addRoute(r, n, n.Pat, e.handlers[id][b2i(n.Next)])
+					pat := n.Pat
+					if emptyAsRoot && subRoot && prog == progGroup && pat == "" {
+						pat = "/" // experiment only (C04_EMPTY_AS_ROOT=1): the other reading of an empty pattern in a sub-app
+					}
+					addRoute(r, n, pat, e.handlers[id][b2i(n.Next)])
 					id++
-				case n.T == 'g' || prog == progGroup:
-					reg(r.Group(n.Prefix), n.Items)
+				case n.T == 'g':
+					reg(r.Group(n.Prefix), n.Items, false)
+				case prog == progGroup:
+					reg(r.Group(n.Prefix), n.Items, true)
 				case prog == progMountLate:
 					sub := fiber.New(fc)
 					r.Use(n.Prefix, sub)
-					reg(sub, n.Items)
+					reg(sub, n.Items, true)
 				default:
 					sub := fiber.New(fc)
-					reg(sub, n.Items)
+					reg(sub, n.Items, true)
 					r.Use(n.Prefix, sub)
 				}
 			}
 		}
-		reg(app, t.Items)
+		reg(app, t.Items, false)
 	case progFlat:
 		var reg func(items []*node, acc string, depth int)
 		reg = func(items []*node, acc string, depth int) {
